@@ -573,6 +573,50 @@ class Run:
             pred = "ok" if r["r"] == "ok" else "diag:loop_budget"
             reply, fails = self.case("sweep_loop", {"main.asm": prog})
             self.expect("sweep_loop", {"main.asm": prog}, reply, fails, pred, "nested loops %d x %d" % (a, b))
+        # sequences of loops in ONE pass: negative counts (literal, constant, computed) must not refund budget to the loops
+        # that follow; counts that only together exceed the budget; i64 extremes.  The model folds loop_enter over the counts.
+        MIN = -2 ** 63
+        seqs = [[-1, 65537], [-70000, 70000], [-4000000000008, 4000000000000], [MIN + 1, 2 ** 63 - 1], [MIN, 70000], [MIN, MIN, 5],
+                [-5, 3, -2 ** 40, 65536 + 2 ** 39], [0, -1, 4, -3, 2], [3, -65540, 65534 * 0 + 70000], [2 ** 63 - 1, -2 ** 63 + 1]]
+        for seq in seqs:
+            for style in ("literal", "const", "computed"):
+                lines = []
+                for k, c in enumerate(seq):
+                    if style == "literal":
+                        lines.append(".loop %s { }" % lit(c))
+                    elif style == "const":
+                        lines += [".const n%d = %s" % (k, lit(c)), ".loop n%d { }" % k]
+                    else:
+                        lines += [".const rows%d = 8" % k, ".loop rows%d + %s { }" % (k, lit(c - 8) if c - 8 >= MIN else lit(c))]
+                        if c - 8 < MIN:
+                            lines[-2] = ".const rows%d = 0" % k
+                prog = "\n".join(lines) + "\n"
+                used, pred = "0", "ok"
+                for c in seq:
+                    r = self.model.call({"cmd": "loop", "used": used, "count": str(c)})
+                    if r["r"] != "ok":
+                        pred = "panic" if r["r"] == "panic" else "diag:loop_budget"
+                        break
+                    used = r["v"]
+                reply, fails = self.case("sweep_loop_sequence", {"main.asm": prog})
+                self.expect("sweep_loop_sequence", {"main.asm": prog}, reply, fails, pred, "loops %s in one pass (%s)" % (seq, style))
+        # counts that only together exceed the budget (nested, so that the symbol table stays shallow and fast)
+        for (a, b, n) in [(20, 1500, 2), (20, 1500, 3)]:
+            prog = "".join(".loop %d { .loop %d { } }\n" % (a, b) for _ in range(n))
+            used, pred = 0, "ok"
+            for _ in range(n):
+                used += a
+                for _ in range(a):
+                    if b > 65536 - used:
+                        pred = "diag:loop_budget"
+                        break
+                    used += b
+                if pred != "ok":
+                    break
+            if used > 65536 - 0 and pred == "ok":
+                pred = "diag:loop_budget"
+            reply, fails = self.case("sweep_loop_sequence", {"main.asm": prog})
+            self.expect("sweep_loop_sequence", {"main.asm": prog}, reply, fails, pred, "%d times %d x %d loops in one pass" % (n, a, b))
         # a million iterations requested by three nested loops of 100: the shared budget stops it after 65536 (a budget per
         # loop would let all of them run)
         prog = ".loop 100 { .loop 100 { .loop 100 { } } }\n"
